@@ -109,10 +109,10 @@ def filler(g, T, nmax=2):
 
 
 # ------------------------------------------------------------------ unroll
-def lit_range(g, allow_empty=True):
+def lit_range(g, allow_empty=True, maxtrip=4):
     """literal (lo, hi, step) and the list of values"""
     step = g.pick([1, 1, 1, 2, 3, -1, -1, -2, -3])
-    trip = g.i(0, 4) if (allow_empty and g.chance(18)) else g.i(1, 4)
+    trip = g.i(0, maxtrip) if (allow_empty and g.chance(18)) else g.i(1, maxtrip)
     lo = g.i(-2, 6)
     if trip == 0:
         hi = lo - (1 if step > 0 else -1) * g.i(1, 3)
@@ -129,7 +129,7 @@ def gen_unroll_region(g, T, flags):
     gb = B.G(g.draw, dict(FILL_PROFILE, max_depth=3, max_stmts=2))
     env = env_of(T, loopvars=LOOPVARS + FILLVARS)
     tags = set()
-    depth = g.i(1, 3)
+    depth = g.pick([1, 1, 2, 2, 2, 3])
     tags.add(f'nest{depth}')
     live = [True]
 
@@ -148,7 +148,7 @@ def gen_unroll_region(g, T, flags):
             rng = (1, 'n')
             tags.add('nonliteral-bound')
         else:
-            lo, hi, step, vals = lit_range(g)
+            lo, hi, step, vals = lit_range(g, maxtrip=4 if depth == 1 else 3)
             lo_e, hi_e = lit(lo), lit(hi)
             stepe = lit(step) if (step != 1 or g.chance(15)) else None
             if step < 0:
@@ -160,7 +160,7 @@ def gen_unroll_region(g, T, flags):
                 live[0] = False
             rng = (min(vals), max(vals)) if vals else (lo, lo)
         env.active_loops[lv] = rng
-        body = strip_exits(B.gen_body(gb, env, 2, 2))
+        body = strip_exits(B.gen_body(gb, env, 2 if depth == 1 else 3, 2))
         if level + 1 < depth:
             ninner = 2 if g.chance(25) else 1
             if ninner == 2:
@@ -172,15 +172,18 @@ def gen_unroll_region(g, T, flags):
                     body.append(['pragma', 'loki loop-unroll'])
                 body.append(inner)
                 if g.chance(40):
-                    body += strip_exits(B.gen_body(gb, env, 2, 1))
-        if level == 0 and flags.get('exitcycle') and g.chance(100):
+                    body += strip_exits(B.gen_body(gb, env, 3, 1))
+        if level == 0 and trigger(g, flags, 'unroll-exit', 8):
             kw = g.pick(['exit', 'cycle'])
             tags.add('exit-or-cycle')
             body.insert(g.i(0, len(body)), ['if1', B.log_expr(gb, env, 1), [kw]])
         del env.active_loops[lv]
         form = 'plain'
-        if g.chance(12):
-            form = g.pick(['named', 'label'])
+        if g.chance(8):
+            form = 'named'
+        elif trigger(g, flags, 'unroll-label', 6):
+            form = 'label'
+        if form != 'plain':
             tags.add('do-' + form)
         return ['do', lv, lo_e, hi_e, stepe, body, form]
 
@@ -198,8 +201,9 @@ def gen_unroll_region(g, T, flags):
 class Space:
     """an iteration space: index variables + which arrays can be subscripted by exactly these indices"""
 
-    def __init__(self, T, which, g):
+    def __init__(self, T, which, g, multisub=True):
         self.which = which
+        self.multisub = multisub
         lb3 = T['zi3']['dims'][0][0]
         if which == 'n':
             # 1-D over 1..n : arrays (name, subscript builder)
@@ -242,11 +246,11 @@ class Space:
         if self.rank == 1:
             if r == 1:
                 return elem(name, var(idx[0]))
-            return elem(name, lit(g.i(1, 3)), var(idx[0]))      # zi4(c, i)
+            return elem(name, lit(g.i(1, 3) if self.multisub else 1), var(idx[0]))      # zi4(c, i)
         return elem(name, var(idx[0]), var(idx[1]))
 
 
-def indep_stmts(g, T, sp, idx, env_ro, warrs, temps, acc, nst, garrs_all):
+def indep_stmts(g, T, sp, idx, env_ro, warrs, temps, acc, nst, garrs_all, idx_value=False):
     """
     statements of one loop body / fission segment: write arrays in ``warrs`` at exactly the iteration index,
     read group arrays (``garrs_all``) only at exactly that index, everything else through env_ro.
@@ -265,6 +269,8 @@ def indep_stmts(g, T, sp, idx, env_ro, warrs, temps, acc, nst, garrs_all):
         tc = [t for t, tt in defined_t if tt == typ]
         if tc and g.chance(60):
             e = ['b', '+', e, var(g.pick(tc))]
+        if idx_value and g.chance(50):
+            e = ['b', '+', e, var(idx[0])] if typ == 'int' else ['b', '+', e, ['f', 'real', [var(idx[0]), ['i', 8]], {}]]
         if typ == 'real':
             return e
         return ['f', 'modulo', [e, ['i', 97]], {}]     # keep integers bounded
@@ -338,6 +344,7 @@ def gen_fusion_region(g, T, gid, flags):
     diffvar = g.chance(35)
     if diffvar:
         tags.add('diffvar')
+        flags['_diffvar'] = True
     # explicit range annotation = union
     def union(level):
         lo = min(r[level][0] for r in ranges)
@@ -592,28 +599,31 @@ def gen_split_region(g, T, flags, lv):
 
 def gen_block_region(g, T, flags, lv):
     tags = set()
-    sp = Space(T, 'n', g)
+    sp = Space(T, 'n', g, multisub=trigger(g, flags, 'block-multisub', 50))
     hi = g.pick(['n', 'n', 3])
     lo = 1
-    if flags.get('block-lo') and g.chance(30):
+    if trigger(g, flags, 'block-lo', 20):
         lo = 2
         tags.add('lo-not-1')
     # arrays subscripted by exactly i: dummies only (documented by the tests), optionally a local one
     cands = ['zi1', 'zr2', 'zi4']
-    if flags.get('block-local') and g.chance(35):
+    if T['zi1']['arg'] == 'out' and not trigger(g, flags, 'block-out-partial', 100):
+        cands.remove('zi1')        # intent(out) dummy possibly written under a condition
+    if trigger(g, flags, 'block-local', 25):
         cands.append('la0')
         tags.add('local-array')
-    garrs = [a for a in cands if g.chance(70)] or ['zi1']
+    garrs = [a for a in cands if g.chance(70)] or [cands[0]]
     if 'la0' in garrs:
         pass
     else:
         tags.discard('local-array')
-    idxr = {lv: (lo, 'n') if hi == 'n' else (lo, hi)}
     acc = 'yi0' if g.chance(40) else None
     written = set(garrs) | ({acc} if acc else set())
-    env = ro_env(T, written, idxr)
-    # read-only dummy subscripted by i as well
-    body = indep_stmts(g, T, sp, [lv], env, garrs, [('ft0', 'int')] if g.chance(40) else [], acc, g.i(1, 4), garrs)
+    # no active loop in the environment: the base generator never builds subscripts from the block index
+    # (only "exactly i" subscripts are inside the domain shown by loki's tests); local arrays are not read either
+    env = ro_env(T, written, {}, extra_excl=('la0', 'la1'))
+    body = indep_stmts(g, T, sp, [lv], env, garrs, [('ft0', 'int')] if g.chance(40) else [], acc, g.i(1, 4), garrs,
+                       idx_value=True)
     if g.chance(50):
         a = g.pick(garrs)
         if T[a]['type'] == 'int':
@@ -631,7 +641,21 @@ def gen_block_region(g, T, flags, lv):
 
 
 # ------------------------------------------------------------------ case
-DEFAULT_FLAGS = {'exitcycle': False, 'block-local': False, 'block-lo': False}
+# triggers of listed known findings: generated only when the flag is True (the check switches a trigger on as soon as the
+# finding is no longer listed); a draw that would have used a disabled trigger is recorded in xf['avoided']
+TRIGGERS = ['unroll-exit', 'unroll-label', 'fusion-diffvar-case', 'block-local', 'block-lo', 'block-multisub',
+            'block-out-partial']
+DEFAULT_FLAGS = {t: False for t in TRIGGERS}
+
+
+def trigger(g, flags, name, pct):
+    """draw the trigger with probability pct; honour the flag"""
+    if not g.chance(pct):
+        return False
+    if flags.get(name):
+        return True
+    flags.setdefault('_avoided', []).append(name)
+    return False
 
 
 @st.composite
@@ -691,8 +715,14 @@ def cases(draw, kinds=None, flags=None, nvec=4):
     inputs = B.gen_inputs(g, entry_args, nvec)
     layout = B.gen_layout(g, 'light')
     layout['semi'] = False
+    layout['comments'] = False      # a comment between a pragma and its loop detaches the pragma (documented)
+    layout['blank'] = False
+    if flags.get('_diffvar') and layout.get('idcase') != 'lower' and not flags.get('fusion-diffvar-case'):
+        layout['idcase'] = 'lower'
+        flags.setdefault('_avoided', []).append('fusion-diffvar-case')
     return {'files': [f], 'entry': {'module': 'kmod', 'name': 'kernel', 'args': entry_args},
-            'inputs': inputs, 'layout': layout, 'xf': {'kind': kind, 'opts': opts, 'regions': regions}}
+            'inputs': inputs, 'layout': layout,
+            'xf': {'kind': kind, 'opts': opts, 'regions': regions, 'avoided': sorted(flags.get('_avoided', []))}}
 
 
 def unmark(case, keep):
@@ -721,3 +751,45 @@ def unmark(case, keep):
         body[i0:i1] = strip(body[i0:i1])
     c['xf']['regions'] = [dict(r, unmarked=(ri != keep)) for ri, r in enumerate(c['xf']['regions'])]
     return c
+
+
+def minimal_case(kind, stmts, tags=(), opts=None, layout=None, zi1_intent='inout', lb3=1, live=True, nvec=4):
+    """hand-written regression/known-finding cases: the fixed kernel schema around the given region statements"""
+    class _G(B.G):
+        def __init__(self):
+            super().__init__(None, FILL_PROFILE)
+            self.k = 0
+
+        def i(self, lo, hi):
+            self.k += 1
+            return lo + (self.k * 7) % (hi - lo + 1)
+
+    g = _G()
+    T = make_table(g)
+    T['zi1']['arg'] = zi1_intent
+    T['zi3']['dims'] = [[lb3, lb3 + 5]]
+    decls, entry_args, prologue = [], [], []
+    for nme in ARGORDER:
+        v = T[nme]
+        d = decl(nme, v['type'], dims=[list(x) for x in v['dims']] if v['dims'] else None, intent=v['arg'])
+        decls.append(d)
+        entry_args.append(d)
+        if v['arg'] == 'out':
+            prologue.append(['assign', var(nme), lit(1)])
+    for nme, v in T.items():
+        if 'arg' not in v:
+            decls.append(decl(nme, v['type'], dims=[list(x) for x in v['dims']] if v['dims'] else None))
+            prologue.append(['assign', var(nme), lit(2) if v['type'] == 'int' else ['r', '0.5']])
+    for nme, (t, dims) in TEMPS.items():
+        decls.append(decl(nme, t, dims=dims))
+        prologue.append(['assign', var(nme), lit(3) if t == 'int' else ['r', '1.5']])
+    for nme in LOOPVARS + FILLVARS:
+        decls.append(decl(nme, 'int'))
+    body = prologue + list(stmts)
+    kern = routine('kernel', ARGORDER, decls, body)
+    f = {'name': 'kmod.f90', 'units': [['module', module('kmod', routines=[kern])]]}
+    inputs = B.gen_inputs(g, entry_args, nvec)
+    return {'files': [f], 'entry': {'module': 'kmod', 'name': 'kernel', 'args': entry_args}, 'inputs': inputs,
+            'layout': layout or {'stream': [0], 'indent': 2},
+            'xf': {'kind': kind, 'opts': opts or {}, 'avoided': [],
+                   'regions': [{'at': [len(prologue), len(body)], 'tags': list(tags), 'live': live}]}}
